@@ -82,15 +82,31 @@ example : WF [
 /-- the same statement for a file that continues after the well-formed lines (used by the error theorems) -/
 theorem parse_render_prefix (lookup : Env) (ls : List Line) (hwf : WF ls = true) (tail : Str) :
     ∃ f, parse (render ls ++ tail) lookup =
-      (evalLines lookup ls).andThen (fun m => parseLoop (f + 1) tail m lookup) := by
+      (evalLines lookup ls).andThen (fun m => parseLoop (f + 2) tail m lookup) := by
   have hle : stmts ls ≤ (render ls ++ tail).length := by
     have := stmts_le_length ls
     simp; omega
-  refine ⟨(render ls ++ tail).length - stmts ls + 1, ?_⟩
+  refine ⟨(render ls ++ tail).length - stmts ls, ?_⟩
   unfold parse evalLines
-  have e : (render ls ++ tail).length + 2 = ((render ls ++ tail).length - stmts ls + 1 + 1) + stmts ls := by omega
+  have e : (render ls ++ tail).length + 2 = ((render ls ++ tail).length - stmts ls + 2) + stmts ls := by omega
   rw [e, parseLoop_render lookup ls hwf _ tail []]
 
+/-- Refinement for files whose last line has no line feed (after the `fix:` commit this includes a final
+    bare key): the result is the same as with the line feed. -/
+theorem parse_render_noFinalNL (lookup : Env) (ls : List Line) (hwf : WF ls = true) :
+    parse (renderNoFinalNL ls) lookup = evalLines lookup ls := by
+  rcases List.eq_nil_or_concat ls with rfl | ⟨init, l, rfl⟩
+  · exact parseLoop_nil 1 [] lookup
+  · rw [List.concat_eq_append] at hwf ⊢
+    simp only [WF, List.all_append, List.all_cons, List.all_nil, Bool.and_true, Bool.and_eq_true] at hwf
+    rw [renderNoFinalNL_concat]
+    obtain ⟨f, hf⟩ := parse_render_prefix lookup init hwf.1 l.render
+    rw [hf]
+    unfold evalLines
+    rw [evalFrom_append]
+    congr 1
+    funext m
+    exact parseLoop_last_line f l m lookup hwf.2
 
 /-! ## malformed input is an error -/
 
@@ -110,7 +126,7 @@ theorem unterminated_err (lookup : Env) (ls : List Line) (hwf : WF ls = true)
   rw [hf]
   congr 1
   funext m
-  exact parseLoop_unterminated f indent exp key ws1 sep ws2 q hq items t ht m lookup hi he hk h1 h2 hw
+  exact parseLoop_unterminated (f + 1) indent exp key ws1 sep ws2 q hq items t ht m lookup hi he hk h1 h2 hw
 
 example : parse ['K', '=', '"', 'a', '\\', '"'] (fun _ => none) = .err .unterminated [] := by decide
 example : parse ['A', '=', '1', '\n', 'K', '=', '\'', 'a', '\n', 'B', '=', '2'] (fun _ => none) =
@@ -131,7 +147,7 @@ theorem invalid_key_err_partial (lookup : Env) (ls : List Line) (hwf : WF ls = t
   rw [hf]
   congr 1
   funext m
-  exact parseLoop_badkey f indent exp pre c rest m lookup hi he hpre hlead hexp hc hhash
+  exact parseLoop_badkey (f + 1) indent exp pre c rest m lookup hi he hpre hlead hexp hc hhash
 
 /-- After ANY well-formed lines, an assignment whose key text consists of two words separated by white space
     (space, tab, VT, FF, CR, NEL, NBSP — all of them after the `fix:` commit) is the error "key cannot contain a space". -/
@@ -146,7 +162,7 @@ theorem key_with_space_err (lookup : Env) (ls : List Line) (hwf : WF ls = true)
   rw [hf]
   congr 1
   funext m
-  exact parseLoop_keyspace f indent exp k1 ws k2 ws1 sep X m lookup hi he hk1 hws hne hk2 hne2 h1
+  exact parseLoop_keyspace (f + 1) indent exp k1 ws k2 ws1 sep X m lookup hi he hk1 hws hne hk2 hne2 h1
 
 /-- non-vacuity: `A$B=1` after a valid line -/
 example : badChar '$' = true ∧ ['A'].all okChar = true ∧ exportKw.isPrefixOf ['A'] = false := by decide
